@@ -11,7 +11,7 @@ NEEDS = {
  "C06": "hard limit at the clock-minus-buffer clamp (movestogo 1..3 or little clock), hardFactor > hard/soft after a root fail-low, limit expiring while root move 1 is searched",
  "C07": "move made while the evaluator's current stack level is invalid (after copy-assignment / connect) without an evaluation in between, kings on the same squares as in the stale slot",
  "C08": "Hash sizes whose reduced size crosses a power of two (256, 258, 260, 512 ... MB) with a 4-men on-demand tablebase resident and keys in the topmost index slice",
- "C09": "Ponder or BufferTime changed while no other synchronisation happens before the next clock-based go: unsynchronised read of UCI parameters",
+ "C09": "two clock-based searches with an option change queued in between: computeTimeLimit reads UCI parameters while the engine thread may still apply them",
  "C10": "two pre-emptions after a search that ended by itself: protocol thread between test and wait in waitStop while the engine thread clears 'search' and notifies",
  "C11": "history containing a double push beside an enemy pawn whose en-passant capture is illegal, the position after it recurring twice more",
  "C12": "diagonally symmetric placements (all men on one long diagonal, or twin pieces on mirror squares) with the losing side to move: duplicate moves counted twice",
